@@ -278,6 +278,7 @@ class LoopRec:
     term: Optional[T] = None     # the comprehension term (comp loops)
     iter_path: Optional[T] = None   # syntactic path of the iterated expression (for loops)
     carried: Dict[str, T] = field(default_factory=dict)   # loop-carried variables: name -> widened term after the loop
+    break_envs: list = field(default_factory=list)        # (pc, env) at every `break` of this loop
 
 
 @dataclass
@@ -413,6 +414,22 @@ class Interp:
     def fresh(self) -> int:
         return next(self._ids)
 
+    def namedtuple_fields(self, dotted: str):
+        """Field names of a module-level `X = namedtuple('X', [...])` (or 'a b c' / 'a, b'), else None."""
+        cache = self.__dict__.setdefault("_nt_cache", {})
+        if dotted not in cache:
+            out = None
+            found = self.repo.lookup(dotted)
+            if found and found[0] == "const" and isinstance(found[2], ast.Call) and len(found[2].args) >= 2 \
+                    and self.repo.dotted(found[1], found[2].func) in ("collections.namedtuple", "namedtuple"):
+                v = consteval.evaluate(self.repo, found[1], found[2].args[1])
+                if isinstance(v, str):
+                    out = v.replace(",", " ").split()
+                elif isinstance(v, (list, tuple)) and all(isinstance(x, str) for x in v):
+                    out = list(v)
+            cache[dotted] = out
+        return cache[dotted]
+
     def is_simple(self, fnode) -> bool:
         """May the function be inlined at a call site?  No generators, no try, no global/nonlocal, and every `return`
         outside of loops (a loop is interpreted once with widened variables, so a value returned from inside it
@@ -480,6 +497,70 @@ def _maybe_shared_mutable(t: "T") -> bool:
         return any(_maybe_shared_mutable(x) for x in t.a[2] if not (x.op == "widen" and x.a[:2] == t.a[:2]))
     if t.op == "mut":
         return _maybe_shared_mutable(t.a[0])
+    return False
+
+
+def _format_to_fstr(fmt: str, args: tuple, kwargs: tuple) -> Optional["T"]:
+    """'text {} {0!r:>8} {name}'.format(a, b, name=c)  as the f-string it equals; None for anything fancier (attribute /
+    index lookups in a field name, nested replacement fields, starred arguments)."""
+    import string
+    if any(a.op == "star" for a in args) or any(k == "**" for k, _ in kwargs):
+        return None
+    kw = dict(kwargs)
+    parts = []
+    auto = 0
+    try:
+        for lit, field_name, spec, conv in string.Formatter().parse(fmt):
+            if lit:
+                parts.append(("lit", lit))
+            if field_name is None:
+                continue
+            if spec and ("{" in spec or "}" in spec):
+                return None
+            if field_name == "":
+                if auto is None:
+                    return None
+                idx, auto = auto, auto + 1
+                val = args[idx] if idx < len(args) else None
+            elif field_name.isdigit():
+                if auto:
+                    return None
+                auto = None
+                val = args[int(field_name)] if int(field_name) < len(args) else None
+            elif field_name.isidentifier():
+                val = kw.get(field_name)
+            else:
+                return None
+            if val is None:
+                return None
+            if val.op == "const" and isinstance(val.a[0], str) and not conv and not spec:
+                parts.append(("lit", val.a[0]))
+            else:
+                parts.append(("val", val, conv or "", const(spec) if spec else None))
+    except (ValueError, IndexError):
+        return None
+    merged = []
+    for p_ in parts:
+        if p_[0] == "lit" and merged and merged[-1][0] == "lit":
+            merged[-1] = ("lit", merged[-1][1] + p_[1])
+        else:
+            merged.append(p_)
+    if all(p_[0] == "lit" for p_ in merged):
+        return const("".join(p_[1] for p_ in merged))
+    return T("fstr", (tuple(merged),))
+
+
+def _fresh_local(t: "T") -> bool:
+    """A container created in this function (a literal, a comprehension, or such a container after local updates /
+    across loop iterations) - as opposed to one reached through a parameter, an attribute or an item."""
+    if t.op in ("dict", "list", "set", "comp"):
+        return True
+    if t.op == "mut":
+        return _fresh_local(t.a[0])
+    if t.op == "ite":
+        return _fresh_local(t.a[1]) and _fresh_local(t.a[2])
+    if t.op == "widen":
+        return all(_fresh_local(x) for x in t.a[2] if not (x.op == "widen" and x.a[:2] == t.a[:2]))
     return False
 
 
@@ -574,7 +655,11 @@ class _Frame:
             else:
                 env[p.arg] = param(p.arg)
         if a.kwarg:
-            env[a.kwarg.arg] = param("**" + a.kwarg.arg)
+            if not symbolic_missing and "**" not in kw:
+                # an inlined call: the keyword arguments nobody claimed, in call order
+                env[a.kwarg.arg] = T("dict", (tuple((const(k), v) for k, v in kw.items()),))
+            else:
+                env[a.kwarg.arg] = param("**" + a.kwarg.arg)
         return State(env, {}, self.base_pc)
 
     def _eval_default(self, node) -> T:
@@ -669,6 +754,8 @@ class _Frame:
             lr = self.rec.loops.get(self.loops[-1])
             if lr is not None:
                 lr.exits.append((kind, st.pc, self.seq(), s.lineno))
+                if kind == "break":
+                    lr.break_envs.append((st.pc, dict(st.env)))
 
     def s_Delete(self, s, st):
         for tgt in s.targets:
@@ -703,6 +790,15 @@ class _Frame:
         key = self.I.fresh()
         self.I.lambdas[key] = (s, dict(st.env), self.mod, self.self_cls, "def")
         st.env[s.name] = T("lambda", (key,))
+        a0 = s.args
+        if not a0.defaults and not a0.kwonlyargs and not a0.vararg and not a0.kwarg and not s.decorator_list \
+                and self.I.is_simple(s) and self.depth < self.I.inline_depth and id(s) not in self.stack:
+            # a small local function is a named lambda: its value is its body over its bound parameters
+            bound = tuple(T("bound", (p_.arg, key)) for p_ in a0.posonlyargs + a0.args)
+            body = self.apply_lambda(st.env[s.name], bound, (), st)
+            if body is not None:
+                st.env[s.name] = T("lambda", (key, body))
+                return st
         # interpret the nested function's body once with symbolic parameters so that its effects, partial
         # operations and calls are part of the record (it may be called later, any number of times)
         if self.depth < self.I.inline_depth and id(s) not in self.stack:
@@ -873,6 +969,7 @@ class _Frame:
             elem = T("elem", (iter_term, lid))
             lr.target = elem
             self.bind(target, elem, body_st, s, record=False)
+        entry_len = len(body_st.pc)
         out = self.exec_block(body, body_st)
         end = self.seq()
         lr.body_seq = (start, end)
@@ -883,10 +980,18 @@ class _Frame:
             vals = []
             if n in init:
                 vals.append(init[n])
+            step = None
             if out is not None and n in out.env:
-                vals.append(out.env[n])
+                step = out.env[n]
             elif n in body_st.env:
-                vals.append(body_st.env[n])
+                step = body_st.env[n]
+            # the value a variable has when the loop is left through `break` also reaches the code after the loop
+            for bpc, benv in lr.break_envs:
+                if n in benv and benv[n] != step:
+                    cond = pc_to_term(bpc[entry_len:])
+                    step = benv[n] if (step is None or cond is None) else T("ite", (cond, benv[n], step))
+            if step is not None:
+                vals.append(step)
             after.env[n] = T("widen", (n, lid, tuple(_dedupe(vals))))
             lr.carried[n] = after.env[n]
         after.heap = {}
@@ -907,7 +1012,32 @@ class _Frame:
                     if found and found[0] == "const" and isinstance(found[2], (ast.Tuple, ast.List)) and found[2].elts \
                             and len(found[2].elts) <= 64 and all(_literal_seq(e) for e in found[2].elts):
                         items = self.eval(found[2], st)
-                if not (items.op in ("tuple", "list") and items.a[0] and len(items.a[0]) <= 64 and all(_const_tree(i) for i in items.a[0])):
+                view = None
+
+                def table_dict(t_):
+                    """a dict literal, or a module-level dict of literals (NAME = {'a': 'b', ...})"""
+                    if t_.op == "dict":
+                        return t_
+                    if t_.op == "global":
+                        found = self.repo.lookup(t_.a[0])
+                        if found and found[0] == "const" and isinstance(found[2], ast.Dict) and found[2].keys \
+                                and len(found[2].keys) <= 64 and all(k is not None and _literal_seq(k) for k in found[2].keys) \
+                                and all(_literal_seq(v) for v in found[2].values):
+                            return self.eval(found[2], st)
+                    return None
+                if items.op == "call" and items.a[0].op == "attr" and items.a[0].a[1] in ("items", "values", "keys") \
+                        and not items.a[1] and table_dict(items.a[0].a[0]) is not None:
+                    view, d_ = items.a[0].a[1], table_dict(items.a[0].a[0])
+                elif table_dict(items) is not None:
+                    view, d_ = "keys", table_dict(items)
+                if view is not None and d_.a[0] and len(d_.a[0]) <= 64 and all(k.op == "const" for k, _ in d_.a[0]) \
+                        and len({k for k, _ in d_.a[0]}) == len(d_.a[0]):
+                    # a dict literal with distinct constant keys (e.g. the **kwargs of an inlined call), in insertion order
+                    items = T("tuple", (tuple({"items": T("tuple", ((k, v),)), "values": v, "keys": k}[view] for k, v in d_.a[0]),))
+                elif items.op == "tuple" and items.a[0] and len(items.a[0]) <= 64 and isinstance(s.iter, ast.Name) \
+                        and not any(i.op == "star" for i in items.a[0]):
+                    pass            # a local tuple literal (immutable): one copy of the body per item, whatever the items are
+                elif not (items.op in ("tuple", "list") and items.a[0] and len(items.a[0]) <= 64 and all(_const_tree(i) for i in items.a[0])):
                     items = T("unknown", ("not-a-literal-table",))
             if items.op in ("tuple", "list") and not any(i.op == "star" for i in items.a[0]):
                 for item in items.a[0]:
@@ -916,7 +1046,7 @@ class _Frame:
                     if st is None:
                         return None
                 return st
-            if isinstance(s.iter, ast.Name) and it.op in ("mut", "ite"):
+            if isinstance(s.iter, ast.Name) and it.op in ("mut", "ite", "call"):
                 # a local list built by (conditional) appends of constants: `for c in needed:` is the sequence of guarded
                 # copies of the body, one per possible element, in order
                 from .render import listify
@@ -977,7 +1107,17 @@ class _Frame:
         for h in s.handlers:
             hs = before.copy()
             # a single-statement body raises before its own assignment completes: the handler sees the state before it
+            # a name that only the LAST statement of the body binds (a plain assignment) still has its old value in the
+            # handler: had that assignment completed, nothing could have raised after it
+            last = s.body[-1]
+            only_last = set()
+            if isinstance(last, (ast.Assign, ast.AugAssign, ast.AnnAssign)):
+                tg = last.targets if isinstance(last, ast.Assign) else [last.target]
+                if all(isinstance(t_, ast.Name) for t_ in tg):
+                    only_last = {t_.id for t_ in tg} - set(self._assigned_names(s.body[:-1], before.env))
             for n in ([] if len(s.body) == 1 else carried):
+                if n in only_last:
+                    continue
                 vals = _dedupe([before.env.get(n, UNDEF)] + ([body_out.env[n]] if body_out is not None and n in body_out.env else []))
                 hs.env[n] = vals[0] if len(vals) == 1 else T("widen", (n, 0, tuple(vals)))
             if h.name:
@@ -1028,7 +1168,7 @@ class _Frame:
                 self.effect("sub-store", base, key, v, (), st, tgt, aug=aug, aug_val=aug_val,
                             path=self.path_of(tgt.value, st))
             local = isinstance(tgt.value, ast.Name) and tgt.value.id in st.env \
-                and base.op not in ("param", "attr", "sub", "elem", "widen")
+                and (base.op not in ("param", "attr", "sub", "elem", "widen") or (base.op == "widen" and _fresh_local(base)))
             if local and base.op == "dict":
                 st.env[tgt.value.id] = T("dict", (base.a[0] + ((key, v),),))
             elif local:
@@ -1038,7 +1178,26 @@ class _Frame:
         elif isinstance(tgt, ast.Starred):
             self.bind(tgt.value, v, st, stmt, record)
 
+    def _namedtuple_item(self, v: T, key) -> Optional[T]:
+        """v == NT(a, b, c=...) for a module-level `NT = namedtuple('NT', fields)`: the item at position / field `key`."""
+        if not (v.op == "call" and v.a[0].op == "global" and v.a[0].a[0].startswith("pykdebugparser.")):
+            return None
+        fields = self.I.namedtuple_fields(v.a[0].a[0])
+        if not fields or any(a.op == "star" for a in v.a[1]) or any(k == "**" for k, _ in v.a[2]):
+            return None
+        bound = dict(zip(fields, v.a[1]))
+        bound.update(dict(v.a[2]))
+        if isinstance(key, int):
+            if not -len(fields) <= key < len(fields):
+                return None
+            key = fields[key]
+        return bound.get(key)
+
     def index_term(self, v: T, idx: T, n_targets: Optional[int] = None) -> T:
+        if idx.op == "const" and isinstance(idx.a[0], int):
+            nt = self._namedtuple_item(v, idx.a[0])
+            if nt is not None:
+                return nt
         if v.op in ("tuple", "list") and idx.op == "const" and isinstance(idx.a[0], int):
             items = v.a[0]
             if -len(items) <= idx.a[0] < len(items) and not any(i.op == "star" for i in items):
@@ -1106,6 +1265,9 @@ class _Frame:
             v = consteval.evaluate(self.repo, mod, mod.constants[name])
             if v is not consteval.UNKNOWN and isinstance(v, (int, str, bytes, float, bool, type(None))):
                 return const(v)
+            cv = self._callable_constant(mod, mod.constants[name])
+            if cv is not None:
+                return cv
             return T("global", (f"{mod.name}.{name}",))
         if name in mod.imports:
             dotted = mod.imports[name]
@@ -1127,6 +1289,17 @@ class _Frame:
         if name in ("True", "False", "None"):
             return const({"True": True, "False": False, "None": None}[name])
         return T("global", (f"?{name}",))
+
+    def _callable_constant(self, mod: ModuleInfo, node) -> Optional[T]:
+        """A module-level `NAME = lambda ...` / `NAME = operator.methodcaller('split')`: the callable itself."""
+        ok = isinstance(node, ast.Lambda) or (
+            isinstance(node, ast.Call) and self.repo.dotted(mod, node.func) in
+            ("operator.attrgetter", "operator.itemgetter", "operator.methodcaller")
+            and all(isinstance(a, ast.Constant) for a in node.args) and not node.keywords)
+        if not ok or self.depth >= self.I.inline_depth:
+            return None
+        fr = _Frame(self.I, mod, self.fnode, None, self.rec, self.qualname, self.depth + 1, self.stack)
+        return fr.eval(node, State({}, {}, ()))
 
     def e_Attribute(self, n, st):
         base = self.eval(n.value, st)
@@ -1155,6 +1328,9 @@ class _Frame:
         key = T("attr", (base, name))
         if key in st.heap:
             return st.heap[key]
+        nt = self._namedtuple_item(base, name)
+        if nt is not None:
+            return nt
         if base.op == "new":
             for k, v in base.a[1]:
                 if k == name:
@@ -1223,6 +1399,10 @@ class _Frame:
             items = base.a[0]
             if -len(items) <= idx.a[0] < len(items) and not any(i.op == "star" for i in items):
                 return items[idx.a[0]]
+        if idx.op == "const" and isinstance(idx.a[0], int):
+            nt = self._namedtuple_item(base, idx.a[0])
+            if nt is not None:
+                return nt
         if base.op == "ite" and idx.op == "const" and isinstance(idx.a[0], int):
             # (a, b) if c else (d, e))[0]  ->  a if c else d   (only when every alternative is a literal sequence)
             def pick(x):
@@ -1488,7 +1668,40 @@ class _Frame:
         fr.exec_block(fnode.body, cs)
         return True
 
+    def _comp_over_table(self, kind, n, elt_nodes, st) -> Optional[T]:
+        """[f(a, b) for a, b in TABLE] over a literal table of constants (a module-level tuple, a local literal) with no
+        condition is the literal list of its items: [f(a0, b0), f(a1, b1), ...]."""
+        if len(n.generators) != 1 or n.generators[0].ifs or n.generators[0].is_async or kind == "set":
+            return None
+        g = n.generators[0]
+        if not isinstance(g.iter, ast.Name):
+            return None
+        saved = (len(self.rec.pops), len(self.rec.calls), len(self.rec.effects))
+        items = self.eval(g.iter, st)
+        if items.op == "global":
+            found = self.repo.lookup(items.a[0])
+            if found and found[0] == "const" and isinstance(found[2], (ast.Tuple, ast.List)) and found[2].elts \
+                    and len(found[2].elts) <= 64 and all(_literal_seq(e) for e in found[2].elts):
+                items = self.eval(found[2], st)
+        if not (items.op in ("tuple", "list") and items.a[0] and len(items.a[0]) <= 64 and all(_const_tree(i) for i in items.a[0])):
+            del self.rec.pops[saved[0]:]
+            del self.rec.calls[saved[1]:]
+            del self.rec.effects[saved[2]:]
+            return None
+        out = []
+        for item in items.a[0]:
+            inner = State(dict(st.env), st.heap, st.pc)
+            self.bind(g.target, item, inner, n, record=False)
+            elts = tuple(self.eval(e, inner) for e in elt_nodes)
+            out.append(elts[0] if len(elts) == 1 else T("tuple", (elts,)))
+        if kind == "dict":
+            return T("dict", (tuple((o.a[0][0], o.a[0][1]) for o in out),))
+        return T("list", (tuple(out),))
+
     def _comp(self, kind, n, elt_nodes, st):
+        unrolled = self._comp_over_table(kind, n, elt_nodes, st)
+        if unrolled is not None:
+            return unrolled
         cid = self.I.fresh()
         inner = State(dict(st.env), st.heap, st.pc)
         gens = []
@@ -1578,6 +1791,19 @@ class _Frame:
                     return r
             return opaque
         # ---- lambdas / local defs
+        if func.op == "call" and func.a[0] == T("global", ("functools.partial",)) and func.a[1] \
+                and not any(a.op == "star" for a in func.a[1]) and not any(k == "**" for k, _ in func.a[2]):
+            # partial(f, a, k=v)(x)  is  f(a, x, k=v)
+            kw2 = dict(func.a[2])
+            kw2.update(dict(kwargs))
+            return self.call(func.a[1][0], tuple(func.a[1][1:]) + tuple(args), tuple(kw2.items()), st, node)
+        if func.op == "global" and func.a[0] == "operator.getitem" and len(args) == 2 and not kwargs:
+            key = T("sub", (args[0], args[1]))
+            if key in st.heap:
+                return st.heap[key]
+            self.rec.pops.append(POp("sub", args[0], args[1], st.pc, self.loops, self.trys, self.seq(), self.qualname,
+                                     getattr(node, "lineno", 0), getattr(node, "col_offset", 0), args[0]))
+            return key
         if func.op == "lambda":
             r = self.apply_lambda(func, args, kwargs, st)
             if r is not None:
@@ -1610,6 +1836,21 @@ class _Frame:
                 root = node.func.value if isinstance(node, ast.Call) and isinstance(node.func, ast.Attribute) else None
                 if isinstance(root, ast.Name) and root.id in st.env and recv.op not in ("param",):
                     st.env[root.id] = T("mut", (recv, name, args) + ((kwargs,) if kwargs else ()))
+                    if name == "update" and recv.op == "dict" and len(args) <= 1:
+                        # a local dict literal updated with literal pairs / another literal dict / keywords stays a literal
+                        more = None
+                        if not args:
+                            more = ()
+                        elif args[0].op == "dict":
+                            more = args[0].a[0]
+                        elif args[0].op in ("list", "tuple") and all(i.op == "tuple" and len(i.a[0]) == 2 for i in args[0].a[0]):
+                            more = tuple((i.a[0][0], i.a[0][1]) for i in args[0].a[0])
+                        if more is not None and not any(k == "**" for k, _ in kwargs):
+                            st.env[root.id] = T("dict", (recv.a[0] + tuple(more) + tuple((const(k), v) for k, v in kwargs),))
+            if recv.op == "const" and isinstance(recv.a[0], str) and name == "format" and not all(a.op == "const" for a in args):
+                fs = _format_to_fstr(recv.a[0], args, kwargs)
+                if fs is not None:
+                    return fs
             if recv.op == "const" and isinstance(recv.a[0], (str, bytes)) and all(a.op == "const" for a in args) \
                     and name in ("lower", "upper", "strip", "format", "encode", "decode", "replace", "ljust", "rjust"):
                 try:
@@ -1620,6 +1861,24 @@ class _Frame:
                     pass
             return opaque
         # ---- builtins
+        if func.op == "global" and func.a[0] in ("operator.attrgetter", "operator.itemgetter", "operator.methodcaller") \
+                and args and not kwargs and all(a.op == "const" for a in args):
+            # operator.attrgetter('a') is lambda x: x.a, itemgetter(k) is lambda x: x[k], methodcaller('m', c) is
+            # lambda x: x.m(c)   (single constant arguments only)
+            src = None
+            kind = func.a[0].rsplit(".", 1)[1]
+            if kind == "attrgetter" and len(args) == 1 and isinstance(args[0].a[0], str) and args[0].a[0].isidentifier():
+                src = f"lambda _x: _x.{args[0].a[0]}"
+            elif kind == "itemgetter" and len(args) == 1:
+                src = f"lambda _x: _x[{args[0].a[0]!r}]"
+            elif kind == "methodcaller" and isinstance(args[0].a[0], str) and args[0].a[0].isidentifier():
+                src = f"lambda _x: _x.{args[0].a[0]}({', '.join(repr(a.a[0]) for a in args[1:])})"
+            if src is not None:
+                lam = ast.parse(src, mode="eval").body
+                for sub in ast.walk(lam):
+                    ast.copy_location(sub, node) if hasattr(node, "lineno") else None
+                ast.fix_missing_locations(lam)
+                return self.e_Lambda(lam, st)
         if func.op == "builtin":
             b = func.a[0]
             if b == "str" and len(args) == 1:
@@ -1640,6 +1899,18 @@ class _Frame:
                     return const(len(a0.a[0]))
                 if a0.op in ("tuple", "list") and not any(i.op == "star" for i in a0.a[0]):
                     return const(len(a0.a[0]))
+            if b == "setattr" and len(args) == 3 and args[1].op == "const" and isinstance(args[1].a[0], str) and not kwargs:
+                # setattr(obj, 'name', v) is obj.name = v
+                pth = self.path_of(node.args[0], st) if isinstance(node, ast.Call) and len(node.args) == 3 else args[0]
+                self.effect("attr-store", args[0], args[1].a[0], args[2], (), st, node, path=pth)
+                root = node.args[0] if isinstance(node, ast.Call) and len(node.args) == 3 else None
+                if isinstance(root, ast.Name) and args[0].op == "new" and root.id in st.env:
+                    st.env[root.id] = new_with(args[0], args[1].a[0], args[2])
+                else:
+                    st.heap[T("attr", (args[0], args[1].a[0]))] = args[2]
+                return NONE
+            if b == "getattr" and len(args) == 2 and args[1].op == "const" and isinstance(args[1].a[0], str) and not kwargs:
+                return self.attr(args[0], args[1].a[0], st, node if isinstance(node, ast.AST) and hasattr(node, "lineno") else None)
             if b in ("hex", "chr", "int", "abs") and len(args) == 1 and args[0].op == "const" and isinstance(args[0].a[0], int):
                 try:
                     return const({"hex": hex, "chr": chr, "int": int, "abs": abs}[b](args[0].a[0]))
